@@ -162,6 +162,11 @@ def frame_strategy(draw, variant):
     dts = ("float64",) if how == "2d" else (("float64", "float32", "int64", "int16", "uint8") if variant == "mixed" else ("float64", "float32"))
     vals = [dict(draw(S.value_column(n, dtypes=dts, regime="exact")), name=f"c{j}") for j in range(ncols)]
     op = draw(st.sampled_from([o for o in OPS_T if o != "size"]))
+    if variant == "mixed" and op in ("min", "max", "first", "last") and draw(st.booleans()):
+        # selections are exact whatever stands in the neighbouring columns: integers beyond 2**53 next to float columns
+        for v in vals:
+            if v["dtype"] == "int64":
+                v["vals"] = [None if x is None else 2**60 + 3 + x for x in v["vals"]]
     mask = draw(S.mask_spec(n, kinds=("none", "bool") if op in ("median", "apply_max") else ("none", "bool", "bool", "slice"), steps=layout == "contiguous"))
     return {"n": n, "warm": draw(S.warm()), "keys": keys, "vals": vals, "mask": mask, "op": op, "layout": layout, "how": how,
             "kw": {"ddof": draw(st.sampled_from([0, 1]))} if op in ("var", "std") else {},
